@@ -4,7 +4,23 @@ fuzz_runs = libFuzzer executions in the thorough tier (0 = none)."""
 
 SC = "Schedules are explored by a deterministic token scheduler: every libcds atomic operation, mutex/condvar call and back-off is a scheduling point."
 
+SMR_ASSUME = ("Oracle: harness bookkeeping of validated guards (protect/assign+recheck/copy/GuardArray) with logical timestamps; a disposal is a violation when a guard "
+              "established before the reclaiming API call began still holds the object; per-object disposer counters; memory really freed on disposal (ASan); "
+              "promptness clause checked only for explicit scan() calls that ran without any token switch while no other thread was manipulating a guard.")
+
 PROPS = {
+    "C01": {
+        "harnesses": [{"name": "smr", "variants": [0, 1], "quick": 480000, "thorough": 6000000, "fuzz_runs": 600000}],
+        "assumptions": [SC, SMR_ASSUME],
+    },
+    "C02": {
+        "harnesses": [{"name": "smr", "variants": [2], "quick": 320000, "thorough": 4000000, "fuzz_runs": 400000}],
+        "assumptions": [SC, SMR_ASSUME],
+    },
+    "C03": {
+        "harnesses": [{"name": "smr", "variants": [0, 1, 2], "quick": 480000, "thorough": 6000000, "fuzz_runs": 600000}],
+        "assumptions": [SC, SMR_ASSUME],
+    },
     "C06": {
         "harnesses": [
             {"name": "queue_ms", "quick": 160000, "thorough": 2400000, "fuzz_runs": 800000, "weight": 3},
